@@ -204,7 +204,7 @@ func init() {
 		return &fw.Prop{
 			ID:    "C16",
 			Level: "exploration",
-			Rule:  "cases = (common-data shape: the real one, or synthetic with 1..3 challenge rounds, 2..80 routed wires, quotient degree factor 1..8, random degree bits and small gate sets / selector groups; seeded random openings and challenges over GF(p^2) with the first quotient opening of each round solved by the reference so that the identity holds) -> PlonkChip.Verify must ACCEPT and the in-circuit vanishing values (verif hook) must equal the reference's; then each of a set of single perturbations (one opening of each kind, beta, gamma, alpha, zeta, a public-input-hash word) -> must REJECT. num_partial_products follows plonky2: ceil(routed/factor)-1 (a shorter last chunk when the factor does not divide the routed-wire count). Non-trivial = the solved instance was judged; distinct by case id.",
+			Rule:  "cases = (common-data shape: the real one, or synthetic with 1..3 challenge rounds, 2..80 routed wires, quotient degree factor 1..8, random degree bits and small gate sets / selector groups; seeded random openings and challenges over GF(p^2) with the first quotient opening of each round solved by the reference so that the identity holds) -> PlonkChip.Verify must ACCEPT and the in-circuit vanishing values (verif hook) must equal the reference's; then each of a set of single perturbations (one opening of each kind, beta, gamma, alpha, zeta, a public-input-hash word) -> must REJECT. num_partial_products follows plonky2: ceil(routed/factor)-1 (a shorter last chunk when the factor does not divide the routed-wire count). Non-trivial = the solved instance was judged; distinct by case id. Also: several chips with different descriptions in one circuit, a quotient change that makes the two sides differ by (-k*2^32, +k), zeta on the subgroup (zeta = 1 with only the L_0 terms non-zero: must not be accepted), and PlonkChip.Verify compiled with a real builder on the real and a synthetic shape.",
 			Assumptions: []string{
 				"zeta = 1 / Z_H(zeta) = 0 are not generated (probability 2^-124 for a real challenge)",
 			},
